@@ -824,6 +824,16 @@ func (p *Program) originsCtx(v ssa.Value, start *originCtx, o originOpts) []ctxV
 					return
 				}
 			}
+			// functions that return one of their arguments unchanged: cmp.Or(a, b, …) is "a if non-zero else b …"
+			if n := calleeName(x); strings.HasPrefix(n, "cmp.Or") && len(x.Call.Args) == 1 {
+				els := p.flattenAppend(x.Call.Args[0], 0)
+				if len(els) > 0 {
+					for _, el := range els {
+						walk(el, ctx)
+					}
+					return
+				}
+			}
 			if !o.local && ctx.depth() < 4 {
 				if callee := x.Call.StaticCallee(); callee != nil && !x.Call.IsInvoke() && p.isTransparent(callee) && callee.Signature.Results().Len() == 1 {
 					for _, rv := range returnsOf(callee, 0) {
